@@ -1025,7 +1025,8 @@ type lcMap struct {
 
 var lcTable = []lcMap{
 	{'\u0041', '\u005A', LowercaseAdd, 32},
-	{'\u00C0', '\u00DE', LowercaseAdd, 32},
+	{'\u00C0', '\u00D6', LowercaseAdd, 32},
+	{'\u00D8', '\u00DE', LowercaseAdd, 32}, // U+00D7 (multiplication sign) has no case: U+00F7 is not its lower case
 	{'\u0100', '\u012E', LowercaseBor, 0},
 	{'\u0130', '\u0130', LowercaseSet, 0x0069},
 	{'\u0132', '\u0136', LowercaseBor, 0},
